@@ -1192,7 +1192,7 @@ Section Resolve.
       assert (H1 : de_struct_obj T (de f0) (dv f0) props0 deny kvs <> None)
         by (destruct (de_struct_obj T (de f0) (dv f0) props0 deny kvs); [congruence | discriminate]).
       apply de_struct_obj_ok in H1. destruct H1 as [_ H1]. unfold flat_stage_ok in H1. rewrite Fl in H1.
-      destruct H1 as [_ H1].
+      destruct H1 as [_ H1]. apply (flats_ok_one_map T _ _ _ _ _ Ed) in H1.
       destruct f0 as [|f1]; [exfalso; apply H1; reflexivity|].
       rewrite (de_at re native T _ _ _ _ Ed) in H1. cbn [de_node] in H1. rewrite option_map_ok in H1.
       assert (Hu : In (k, x) (unknown_entries props0 kvs)).
